@@ -361,6 +361,8 @@ KNOWN_BAD = {
          "#[derive(Debug, Clone, PartialEq, Difference)]\npub struct D<const N: i32 = -1, const C: char = 'x', const M: usize = { 1 + 2 }> { pub a: [u8; M], pub n: u8 }\n"),
  'D28': ("a field type with a literal const generic argument (heapless::Vec<u8, 4>-like: W<u8, 4>, W<u8, 0x4>, Neg<-1>, W<u8, { N }>): the derive panics (Expecting closing generic bracket)",
          "#[derive(Debug, Clone, PartialEq)]\npub struct W<T, const K: usize>(pub [T; K]);\n#[derive(Debug, Clone, PartialEq)]\npub struct Neg<const I: i32>;\n#[derive(Debug, Clone, PartialEq)]\npub struct Ch<const C: char>;\n#[derive(Debug, Clone, PartialEq, Difference)]\npub struct D<const N: usize> { pub w: W<u8, 4>, pub o: Option<W<i64, 0x2>>, pub x: Neg<-1>, pub c: Ch<'x'>, pub b: W<u8, { N }>, pub a: [u8; N], pub n: u8 }\n"),
+ 'D29': ("an enum without variants (enum Never {}): the generated diff_ref matches on a reference, and a reference to an uninhabited type counts as inhabited (E0004)",
+         "#[derive(Debug, Clone, PartialEq, Difference)]\npub enum D {}\n#[derive(Debug, Clone, PartialEq, Difference)]\npub enum E<T: Clone + PartialEq + std::fmt::Debug> { #[allow(dead_code)] Only(T) }\n"),
  'D7': ("trailing comma inside a difference attribute", "#[derive(Debug, Clone, PartialEq, Difference)]\npub struct D { #[difference(skip,)] pub f0: i64, pub f1: i64 }\n"),
  'D8': ("generic parameter used only behind a reference inside another type", "#[derive(Debug, Clone, PartialEq, Difference)]\npub struct D<'a, T> { pub o: Option<&'a T> }\n"),
  'D8b': ("generic parameter used only as the head of an associated-type path (same cause as D8: the used-parameter test compares the parameter's name with whole base strings)",
